@@ -88,10 +88,17 @@ func c13mix(salt int, yield bool, sc []c13In, ar [][]c13In) int {
 }
 
 // the artifact of a producer: wraps the int its Process() computed
-type c13Art struct{ v int }
+type c13Art struct {
+	v    int
+	gate *c13Gate // HTTP families only (c13_http.go): Write can be made to block; nil = writes at once
+}
 
-func (a c13Art) Write(w io.Writer) error { _, err := fmt.Fprintf(w, "%d", a.v); return err }
-func (a c13Art) Mime() string            { return "text/plain" }
+func (a c13Art) Write(w io.Writer) error {
+	a.gate.pass(a.v)
+	_, err := fmt.Fprintf(w, "%d", a.v)
+	return err
+}
+func (a c13Art) Mime() string { return "text/plain" }
 
 // processor structs: exported interface fields = scalar ports, exported slice field = array port;
 // the unexported bookkeeping fields are of kinds refutil skips.  Field order scrambled on purpose.
@@ -114,11 +121,13 @@ type c13P41 struct {
 	A, B  c13In
 	yield bool
 	D, C  c13In
+	gate  *c13Gate
 }
 type c13P20 struct {
 	salt  int
 	A, B  c13In
 	yield bool
+	gate  *c13Gate
 }
 
 func (t c13G41) Process() (int, error) {
@@ -128,10 +137,10 @@ func (t c13G20) Process() (int, error) {
 	return c13mix(t.salt, t.yield, []c13In{t.A, t.B}, nil), nil
 }
 func (t c13P41) Process() (artifact.Artifact, error) {
-	return c13Art{c13mix(t.salt, t.yield, []c13In{t.A, t.B, t.C, t.D}, [][]c13In{t.Xs})}, nil
+	return c13Art{v: c13mix(t.salt, t.yield, []c13In{t.A, t.B, t.C, t.D}, [][]c13In{t.Xs}), gate: t.gate}, nil
 }
 func (t c13P20) Process() (artifact.Artifact, error) {
-	return c13Art{c13mix(t.salt, t.yield, []c13In{t.A, t.B}, nil)}, nil
+	return c13Art{v: c13mix(t.salt, t.yield, []c13In{t.A, t.B}, nil), gate: t.gate}, nil
 }
 
 // ---- graph description -------------------------------------------------------------------------
@@ -334,7 +343,34 @@ func c13Build(g []c13Desc) *c13Built { return c13BuildNamed(g, false) }
 var c13PrefixNames = []string{"p", "p1", "p10"}
 
 func c13BuildNamed(g []c13Desc, prefixNames bool) *c13Built {
-	b := &c13Built{g: g, inst: graph.New(&refutil.TypeFactory{}), ids: make([]string, len(g)), names: make([]string, len(g)), outs: make([]c13In, len(g))}
+	return c13BuildOpt(g, c13BuildOptions{prefixNames: prefixNames})
+}
+
+type c13BuildOptions struct {
+	prefixNames bool
+	// HTTP families: the producers are not registered with an Instance of the harness but collected
+	// here (they become generator.App.Files); ids are looked up over HTTP afterwards
+	files     map[string]nodes.NodeOutput[artifact.Artifact]
+	gate      *c13Gate
+	parPrefix string // parameter Name = parPrefix + node index (default "p")
+}
+
+func c13BuildOpt(g []c13Desc, opt c13BuildOptions) *c13Built {
+	prefixNames := opt.prefixNames
+	if opt.parPrefix == "" {
+		opt.parPrefix = "p"
+	}
+	b := &c13Built{g: g, ids: make([]string, len(g)), names: make([]string, len(g)), outs: make([]c13In, len(g))}
+	if opt.files == nil {
+		b.inst = graph.New(&refutil.TypeFactory{})
+	}
+	addProducer := func(name string, out nodes.NodeOutput[artifact.Artifact]) {
+		if opt.files != nil {
+			opt.files[name] = out
+		} else {
+			b.inst.AddProducer(name, out)
+		}
+	}
 	all := make([]nodes.Node, len(g))
 	b.all = all
 	prodName := func(i int) string {
@@ -356,7 +392,7 @@ func c13BuildNamed(g []c13Desc, prefixNames bool) *c13Built {
 		}
 		switch {
 		case d.param:
-			p := &parameter.Value[int]{Name: "p" + itoa(i), DefaultValue: d.def}
+			p := &parameter.Value[int]{Name: opt.parPrefix + itoa(i), DefaultValue: d.def}
 			all[i], b.outs[i] = p, p
 			b.pars = append(b.pars, i)
 		case !d.prod && d.hasXs:
@@ -368,18 +404,21 @@ func c13BuildNamed(g []c13Desc, prefixNames bool) *c13Built {
 			all[i], b.outs[i] = n, n
 			b.strs = append(b.strs, i)
 		case d.hasXs:
-			n := &nodes.Struct[artifact.Artifact, c13P41]{Data: c13P41{A: in(d.sc[0]), B: in(d.sc[1]), C: in(d.sc[2]), D: in(d.sc[3]), Xs: xs, salt: d.salt, yield: d.yield}}
+			n := &nodes.Struct[artifact.Artifact, c13P41]{Data: c13P41{A: in(d.sc[0]), B: in(d.sc[1]), C: in(d.sc[2]), D: in(d.sc[3]), Xs: xs, salt: d.salt, yield: d.yield, gate: opt.gate}}
 			all[i] = n
 			b.names[i] = prodName(i)
-			b.inst.AddProducer(b.names[i], n.Out())
+			addProducer(b.names[i], n.Out())
 			b.prods = append(b.prods, i)
 		default:
-			n := &nodes.Struct[artifact.Artifact, c13P20]{Data: c13P20{A: in(d.sc[0]), B: in(d.sc[1]), salt: d.salt, yield: d.yield}}
+			n := &nodes.Struct[artifact.Artifact, c13P20]{Data: c13P20{A: in(d.sc[0]), B: in(d.sc[1]), salt: d.salt, yield: d.yield, gate: opt.gate}}
 			all[i] = n
 			b.names[i] = prodName(i)
-			b.inst.AddProducer(b.names[i], n.Out())
+			addProducer(b.names[i], n.Out())
 			b.prods = append(b.prods, i)
 		}
+	}
+	if b.inst == nil {
+		return b
 	}
 	for i := range g {
 		b.ids[i] = b.inst.NodeId(all[i])
@@ -834,6 +873,8 @@ func runC13(c *Ctx) {
 	for i := 0; i < c.N/5; i++ {
 		c13FileHistory(c, c13FileClients[c.Rng.Intn(len(c13FileClients))], fixedProcs)
 	}
+	// the HTTP families (c13_http.go): the real edit-server handlers
+	c13HTTP(c)
 }
 
 // ---- (c) FILE family: parameter.File + basics.BinaryNode, results held after the call returned ----
